@@ -21,7 +21,7 @@ import Splipy.Lemmas.C10Identical
 executed; `History.run_wf` is the induction over the history.
 
 Every family of the API is covered under the guard of the theorem of the property that owns it
-(`Covered`), and the two-object pool instruction `make_splines_identical` under `Obj.IdenticalGuard`
+(`Covered`), and the two-object pool instruction `make_splines_identical` under `Obj.IdenticalGuardAll`
 (`Instr.IdentOK`).  Outside the guards (periodic directions with `n < p + k`, knots of multiplicity ≥ order
 under `raise_order`, general `lower_order`) the real code has known defects and nothing is claimed.
 -/
@@ -35,10 +35,12 @@ variable {K : Type} [Field K] [LinearOrder K] [IsStrictOrderedRing K] [FloorRing
 namespace History
 
 /-- The hypotheses under which one call is proved to preserve well-formedness — per family exactly the
-    guard of the theorem it rests on (C04 periodic insertion `n ≥ p+k`, C05 clamped spacing, C07/C08). -/
+    guard of the theorem it rests on (C05 clamped spacing for raise/lower_order, C07 exact-tolerance hypotheses for
+    periodic split, values of the half-open domain on open directions; periodic insertion, refine and
+    lower_periodic need nothing). -/
 def Covered (tol : K) (o : Obj K) : Op K → Prop
-  | .insertKnot knots dir => Obj.KnotsOK (o.basis dir) knots
-  | .refine _ _ => ∀ d, d < o.bases.size → Obj.DirOK (o.basis d)
+  | .insertKnot knots dir => Obj.OpenKnotsOK (o.basis dir) knots
+  | .refine _ _ => True
   | .raiseOrder raises direction => RaiseGuard tol o raises direction
   | .lowerOrder lowers =>
       (∀ l ∈ lowers, l = 0) ∨
@@ -49,14 +51,11 @@ def Covered (tol : K) (o : Obj K) : Op K → Prop
   | .swap _ _ => True
   | .reparam _ _ _ => True
   | .reparamAll _ => True
-  | .split knots dir => SplitOK o tol knots dir
+  | .split knots dir => SplitOKAll o tol knots dir
   | .append other => AppendGuard tol o other
   | .makePeriodic c dir =>
       ((o.basis dir).order : Int) + c.getD (((o.basis dir).order : Int) - 2) ≤ (o.basis dir).numFunctions
-  | .lowerPeriodic t dir =>
-      (o.basis dir).periodic = t ∨ ∃ k : ℕ, (o.basis dir).periodic = (k : Int) ∧ -1 ≤ t ∧ t ≤ k ∧
-        (o.basis dir).order + k ≤ (o.basis dir).numFunctions ∧
-        (o.basis dir).start < (o.basis dir).kn (o.basis dir).order
+  | .lowerPeriodic _ _ => True
   | .affine op => op.Admissible
   | .section _ => True
   | .extrude _ => True
@@ -73,10 +72,10 @@ theorem stepOut_covered_wf {o : Obj K} (h : o.WellFormed) (tol : K) (htol : 0 < 
     exact ⟨hr, fun n hn => absurd hn (List.not_mem_nil)⟩
   cases op with
   | insertKnot knots dir =>
-      obtain ⟨h1, h2⟩ := stepOut_insertKnot_any_wf_partial h tol knots dir hc hs
+      obtain ⟨h1, h2⟩ := stepOut_insertKnot_all_wf_partial h tol knots dir hc hs
       exact nil h1 rfl h2
   | refine ns direction =>
-      obtain ⟨h1, h2⟩ := stepOut_refine_any_wf_partial h tol htol.le ns direction hc hs
+      obtain ⟨h1, h2⟩ := stepOut_refine_wf_all h tol htol.le ns direction hs
       exact nil h1 rfl h2
   | raiseOrder raises direction =>
       obtain ⟨h1, h2⟩ := stepOut_raiseOrder_wf_partial h tol htol raises direction hc hs
@@ -102,13 +101,13 @@ theorem stepOut_covered_wf {o : Obj K} (h : o.WellFormed) (tol : K) (htol : 0 < 
   | reparamAll args =>
       obtain ⟨h1, h2⟩ := stepOut_reparamAll_wf h tol args hs
       exact nil h1 rfl h2
-  | split knots dir => exact stepOut_split_any_wf_partial h tol knots dir hc hs
+  | split knots dir => exact stepOut_split_all_wf_partial h tol knots dir hc hs
   | append other =>
       obtain ⟨h1, h2⟩ := stepOut_append_any_wf_partial h (hoth other rfl) tol htol hc hs
       exact nil h1 rfl h2
   | makePeriodic c dir => exact stepOut_makePeriodic_wf_long_partial h tol c dir hs hc
   | lowerPeriodic t dir =>
-      obtain ⟨h1, h2⟩ := stepOut_lowerPeriodic_wf_partial h tol t dir hc hs
+      obtain ⟨h1, h2⟩ := stepOut_lowerPeriodic_wf h tol t dir hs
       exact nil h1 rfl h2
   | affine aop => exact stepOut_affine_wf h tol aop hc hs
   | «section» sec => exact stepOut_section_wf h tol sec hs
@@ -165,11 +164,11 @@ def Instr.ArgsWF : Instr K → Prop
   | _ => True
 
 /-- The guard of the two-object instruction `make_splines_identical` on the current pool (stage-wise guard
-    `Obj.IdenticalGuard` of the two objects it acts on); `True` for every other instruction. -/
+    `Obj.IdenticalGuardAll` of the two objects it acts on); `True` for every other instruction. -/
 def Instr.IdentOK (tol : K) (pool : List (Obj K)) : Instr K → Prop
   | .identical i j direction =>
       ∀ a b, pool[i]? = some a → pool[j]? = some b →
-        Obj.IdenticalGuard tol a b (direction.map (fun d => DirTok.int d))
+        Obj.IdenticalGuardAll tol a b (direction.map (fun d => DirTok.int d))
   | _ => True
 
 /-- Every instruction of the history is covered at the moment it is executed. -/
@@ -222,7 +221,7 @@ theorem exec_wf {pool pool' : List (Obj K)} (hpool : ∀ o ∈ pool, o.WellForme
     (hs : exec tol pool ins = .ok pool') : ∀ o ∈ pool', o.WellFormed := by
   by_cases hisid : ∃ j k d, ins = .identical j k d
   · obtain ⟨j, k, d, rfl⟩ := hisid
-    exact exec_identical_wf hpool tol htol j k d hid hs
+    exact exec_identical_wf_all hpool tol htol j k d hid hs
   have hex : exec tol pool ins = (do
       let (i, op) ← ins.resolve pool
       let out ← stepOut tol (pool.getD i default) op
